@@ -15,7 +15,7 @@
                                     depths: any functions (which entry is chosen is property C20) *)
 From Coq Require Import List NArith ZArith Bool.
 From SNT Require Import Base.Outcome Encoder.Decimal Encoder.Utf8 Encoder.Encode Encoder.EncodeStream Encoder.EncodeOrig Encoder.VT
-  Encoder.VTProofs Encoder.Denote Encoder.EncodeProofs Encoder.EncodeMeaning.
+  Encoder.VTProofs Encoder.Denote Encoder.EncodeProofs Encoder.EncodeMeaning Encoder.Color256 Encoder.EncodeC20.
 Import ListNotations.
 Local Open Scope N_scope.
 
@@ -33,19 +33,40 @@ Theorem C05_face_exact :
   forall (pal256 gray4 : rgba -> N), (forall c, pal256 c < 256) ->
   forall (glyphs kitty : bool) (f : face), cmd_ok (Face f) = true ->
   exists bs t, encode pal256 gray4 (mkCaps TrueColor glyphs kitty) (Face f) = Ok bs /\
-    vt_ops bs = [OSgr t] /\
+    vt_ops bs = [OSgr t] /\ t_bad t = false /\
     forall prior : rendition, rt_apply t prior = face_rendition f.
 Proof. exact c05_face_exact_thm. Qed.
 
-(* 3. REDUCED DEPTHS select one palette entry per colour. *)
+(* 3. REDUCED DEPTHS select one palette entry per colour, for every role.
+      Face: foreground and background each become CIdx of ONE entry (pal256 c under
+      EightBit, the system colour of the grey level under Gray) or stay default; the
+      underline colour is the default one. *)
 Theorem C05_face_reduced :
   forall (pal256 gray4 : rgba -> N), (forall c, pal256 c < 256) ->
-  forall (cp : caps) (f : face) (c : rgba), cmd_ok (Face f) = true ->
-  cp_depth cp <> TrueColor -> f_fg f = Some c ->
-  exists bs t n, encode pal256 gray4 cp (Face f) = Ok bs /\ vt_ops bs = [OSgr t] /\
-    (forall prior, r_fg (rt_apply t prior) = CIdx n) /\
-    n = match cp_depth cp with EightBit => pal256 c | _ => gray_entry (gray4 c) end.
+  forall (cp : caps) (f : face), cmd_ok (Face f) = true -> cp_depth cp <> TrueColor ->
+  exists bs t, encode pal256 gray4 cp (Face f) = Ok bs /\ vt_ops bs = [OSgr t] /\
+    forall prior,
+      r_fg (rt_apply t prior) = reduced_colour pal256 gray4 (cp_depth cp) (f_fg f) /\
+      r_bg (rt_apply t prior) = reduced_colour pal256 gray4 (cp_depth cp) (f_bg f) /\
+      r_ulc (rt_apply t prior) = CDefault.
 Proof. exact c05_face_reduced_thm. Qed.
+
+(*    FaceModify: every NAMED colour (fg, bg, underline) becomes one entry, an unnamed one is
+      untouched (or reset); under Gray the underline colour is dropped -- the encoder sends
+      nothing for it, which the specification records as "no grey rendering of an underline
+      colour" (Denote.colour_of). *)
+Theorem C05_facemodify_reduced :
+  forall (pal256 gray4 : rgba -> N), (forall c, pal256 c < 256) ->
+  forall (cp : caps) (m : facemod), cmd_ok (FaceModify m) = true -> cp_depth cp <> TrueColor ->
+  exists bs, encode pal256 gray4 cp (FaceModify m) = Ok bs /\
+    let t := fm_trans pal256 gray4 (cp_depth cp) m in
+    let base := if fm_reset m then rt_reset else rt_id in
+    let idx (c : option rgba) := option_map (fun c => CIdx (reduced_entry pal256 gray4 (cp_depth cp) c)) c in
+    vt_ops bs = (if rtrans_is_id t then [] else [OSgr t]) /\
+    t_fg t = over (idx (fm_fg m)) (t_fg base) /\
+    t_bg t = over (idx (fm_bg m)) (t_bg base) /\
+    t_ulc t = match cp_depth cp with Gray => t_ulc base | _ => over (idx (fm_ucolor m)) (t_ulc base) end.
+Proof. exact c05_facemodify_reduced_thm. Qed.
 
 (* 4. SELF-CONTAINED: after every command the parser is in its initial state ... *)
 Theorem C05_selfcontained :
@@ -54,9 +75,10 @@ Theorem C05_selfcontained :
   exists bs, encode pal256 gray4 cp c = Ok bs /\ vt_complete bs = true.
 Proof. exact c05_selfcontained_thm. Qed.
 
-(*    ... so a stream of commands parses back into the same operations whatever
-      (complete) output preceded it. *)
-Theorem C05_stream :
+(*    ... so a stream of commands parses back into the same operations whatever preceded
+      it, PROVIDED what preceded is itself complete (vt_complete pre): after a dangling
+      ESC / unterminated string no encoding could help. *)
+Theorem C05_stream_after_complete_prefix :
   forall (pal256 gray4 : rgba -> N), (forall c, pal256 c < 256) ->
   forall (cp : caps) (cs : list cmd),
   forallb cmd_ok cs = true -> forallb (fun c => negb (is_raw c)) cs = true ->
@@ -71,10 +93,30 @@ Theorem C05_parser_concat :
 Proof. exact vt_parse_app. Qed.
 
 (* 5. NO PANIC: the model (checked arithmetic) has no failing path for ANY
-      command value, in or out of the domain of the meaning theorem. *)
+      command value, in or out of the domain of the meaning theorem.  Here the palette
+      index / grey level are PARAMETERS, so the reduced-depth code is not inside this
+      statement; C05_nopanic_with_reduction below closes that. *)
 Theorem C05_nopanic :
   forall (pal256 gray4 : rgba -> N) (cp : caps) (c : cmd), is_ok (encode pal256 gray4 cp c) = true.
 Proof. exact encode_total. Qed.
+
+(* 5a. NO PANIC with the colour reduction of C20 inside the model: encode_c20 runs the
+       EightBit arm with explicit panic sites (CUBE[..], GREYS[..] indexing; nearest's
+       `len - 1`), over the regenerated tables.  Not modelled: f32 evaluation
+       (partial_cmp().unwrap() cannot fail on the finite values involved); the
+       exhaustive run of c20sweep encodes all 2^24 colours under every depth on
+       every check and reports a panic as a violation. *)
+Theorem C05_nopanic_with_reduction :
+  forall (cp : caps) (c : cmd), is_ok (encode_c20 cp c) = true.
+Proof. exact encode_c20_total. Qed.
+
+(* 5b. KNOWN FINDING (class C05-char-introducer, excluded from cmd_ok): `Char(c)` for the seven
+       characters that open a control sequence or string (ESC, and C1 DCS SOS CSI OSC PM APC) is
+       NOT self-contained: the parser is left inside an escape sequence ... *)
+Theorem C05_char_introducer_refuted :
+  forall (pal256 gray4 : rgba -> N) (cp : caps) (c : N), char_introducer c = true ->
+  exists bs, encode pal256 gray4 cp (Char c) = Ok bs /\ vt_complete bs = false.
+Proof. exact char_introducer_refuted. Qed.
 
 (* 6. the DEC mode numbers in the source (regenerated every run) are xterm's *)
 Theorem C05_decmodes : forall m, decmode_code m = decmode_xterm m.
@@ -104,6 +146,16 @@ Example C05_meaning_nonvacuous :
   vt_ops [27; 91; 48; 59; 51; 56; 59; 50; 59; 49; 59; 50; 59; 51; 59; 52; 58; 51; 59; 49; 109]
     = [OSgr (mkRT (Some IBold) (Some false) (Some LCurly) (Some false) (Some false) (Some false) (Some false)
                   (Some (CRgb 1 2 3)) (Some CDefault) (Some CDefault) false)].
+Proof. vm_compute. repeat split; reflexivity. Qed.
+
+(*     ... and swallows what follows: Char(ESC) Char('c') is a full reset, Char(U+009B) Char('2')
+      Char('J') erases the screen; every other character (C0/C1 controls, DEL) is in the domain *)
+Example C05_char_introducer_witnesses :
+  vt_ops (utf8_list [27; 99]) = [ORis] /\
+  vt_ops (utf8_list [155; 50; 74]) = [OEd 2] /\
+  cmd_ok (Char 27) = false /\ cmd_ok (Char 155) = false /\
+  cmd_ok (Char 127) = true /\ cmd_ok (Char 133) = true /\ cmd_ok (Char 7) = true /\ cmd_ok (Char 156) = true /\
+  cmd_ok (Termcap [[]]) = true /\ cmd_ok (Termcap []) = true.
 Proof. vm_compute. repeat split; reflexivity. Qed.
 
 (* ---------- the code before the `fix:` commits did NOT have the property ---------- *)
